@@ -89,6 +89,7 @@ impl Property for C08 {
             .prop_map(|(depth, backends, mut ops, batches)| {
                 let backends = if depth == 20 { vec![Optimal, Pm, RlnApi] } else { backends };
                 ops.extend(batches);
+                tame_for_depth20(depth, &mut ops);
                 TreeCase { depth, backends, ops }
             })
             .boxed()
